@@ -265,9 +265,15 @@ class Ref:
     path: str  # dotted external / module name
 
 
-@dataclass(frozen=True)
+@dataclass(frozen=True, eq=False)
 class ClassRef:
     cls: ClassInfo
+
+    def __eq__(self, other: Any) -> bool:
+        return isinstance(other, ClassRef) and other.cls is self.cls
+
+    def __hash__(self) -> int:
+        return id(self.cls)
 
 
 _MISSING = object()
@@ -465,6 +471,15 @@ def _concrete(v: Any) -> bool:
     if isinstance(v, dict):
         return all(_concrete(x) for x in v.values())
     return True
+
+
+def _keyable(v: Any) -> bool:
+    """Usable as a dictionary key the way Python would use it: concrete values, classes, and tuples of them."""
+    if isinstance(v, ClassRef):
+        return True
+    if isinstance(v, tuple):
+        return all(_keyable(x) for x in v)
+    return _concrete(v) and not isinstance(v, (list, dict, set))
 
 
 def _has_unk(v: Any, depth: int = 0) -> bool:
@@ -1250,7 +1265,9 @@ class Interp:
             k = self.eval(target.slice, env)
             if o is UNK:
                 return
-            if isinstance(o, (list, dict)) and _concrete(k):
+            if isinstance(o, dict) and _keyable(k):
+                o[k] = value
+            elif isinstance(o, (list, dict)) and _concrete(k):
                 if isinstance(k, slice) and not isinstance(value, (list, tuple)):
                     if value is UNK or isinstance(value, (Opaque, Sym)):
                         raise Undecided(f'slice store of an abstract value (line {target.lineno})')
@@ -1603,6 +1620,8 @@ class Interp:
             if isinstance(o, (ast.Is, ast.IsNot)):
                 if left is UNK or right is UNK:
                     v: Any = UNK
+                elif isinstance(left, ClassRef) and isinstance(right, ClassRef):
+                    v = (left.cls is right.cls) == isinstance(o, ast.Is)  # one class, however many references to it
                 else:
                     v = (left is right) if isinstance(o, ast.Is) else (left is not right)
             elif left is UNK or right is UNK:
@@ -1643,6 +1662,11 @@ class Interp:
             return index(v, k)
         if isinstance(v, Obj) and '__record_fields__' in v.attrs and isinstance(k, (int, slice)):
             return self.iterate(v)[k]
+        if isinstance(v, dict) and _keyable(k):
+            try:
+                return v[k]
+            except KeyError:
+                raise Raised('KeyError', e)
         if isinstance(v, (tuple, list, dict, str, range, Counter)):
             if not _concrete(k):
                 raise Undecided('abstract subscript')
